@@ -111,7 +111,6 @@ static void probe_get(ASock &as, Rng &r) {
     enum xcm_attr_type type = (enum xcm_attr_type)77;
     errno = 0;
     int full = x_attr_get(x, name.c_str(), &type, big.data(), big.size());
-    int full_errno = errno;
     bool exists = full >= 0;
     G->count("probe.attr_get");
     // every capacity of interest, with a heap buffer of exactly that size (one byte too many written = ASan report)
@@ -247,6 +246,17 @@ static void set_good(ASock &as, Rng &r, const char *phase) {
     }
 }
 
+// where the connection attempt stands, read from the simulated kernel
+static const char *kernel_phase(XSock *x) {
+    bool syn = false, est = false;
+    for (auto &kv : K->fdt[1]) {
+        if (kv.second.owner != x) continue;
+        if (auto t = std::dynamic_pointer_cast<TcpSock>(kv.second.f)) { if (t->st == TcpSock::SYN_SENT) syn = true; if (t->st == TcpSock::EST) est = true; }
+        if (auto u = std::dynamic_pointer_cast<UnixSock>(kv.second.f)) if (u->st == UnixSock::CONNECTED) est = true;
+    }
+    return est ? "connection established" : syn ? "TCP connection attempt in progress" : "no TCP connection attempt yet";
+}
+
 // creation-only attributes written later: EACCES, nothing changes
 static void set_creation_only_late(ASock &as, Rng &r, const char *phase) {
     XSock *x = as.x;
@@ -269,7 +279,7 @@ static void set_creation_only_late(ASock &as, Rng &r, const char *phase) {
         e = errno;
     }
     G->count("probe.attr_late_creation_only");
-    if (rc == 0) { G->violation("C11.creation_only_writable", "%s: attribute \"%s\" (writable only at creation) was accepted during %s", x->label.c_str(), name.c_str(), phase); return; }
+    if (rc == 0) { G->violation("C11.creation_only_writable", "%s: attribute \"%s\" (writable only at creation) was accepted during %s (kernel: %s)", x->label.c_str(), name.c_str(), phase, kernel_phase(x)); return; }
     bool present = false;
     for (auto &n : names_now(x)) if (n == name) present = true;
     if (e != EACCES && !(e == ENOENT && !present)) G->violation("C11.creation_only_errno", "%s: writing \"%s\" during %s failed with %s, expected EACCES", x->label.c_str(), name.c_str(), phase, strerror(e));
